@@ -119,10 +119,41 @@ theorem trueValue_log1p_eq (n : Bool) (c : Nat) (e : Int) :
         match Encl.log (c : Rat) e with
         | some l => some (false, ⟨⟨l.lo, l.hi + pow10 (-38)⟩, 0⟩)
         | none => none
+      else if e + (ndigits c : Int) < -12 then signSplit (log1pSmall x)
       else
         match Encl.log (1 + x) 0 with
         | none => none
         | some l => signSplit l := rfl
+
+/-- the degree-5 Taylor enclosure of ln(1+x) -/
+theorem log1pSmall_sound (x : ℚ) (hx : |x| ≤ 1 / 2) : Real.log (1 + (x : ℝ)) ∈ᵢ log1pSmall x := by
+  have hxr : |(x : ℝ)| ≤ 1 / 2 := by
+    have : ((|x| : ℚ) : ℝ) ≤ ((1 / 2 : ℚ) : ℝ) := by exact_mod_cast hx
+    simpa using this
+  have h1 : |(-(x : ℝ))| < 1 := by rw [abs_neg]; linarith
+  have hb := Real.abs_log_sub_add_sum_range_le h1 5
+  rw [abs_neg, sub_neg_eq_add] at hb
+  have hsum : (∑ i ∈ Finset.range 5, (-(x : ℝ)) ^ (i + 1) / ((i : ℝ) + 1)) =
+      -((x : ℝ) - (x : ℝ) ^ 2 / 2 + (x : ℝ) ^ 3 / 3 - (x : ℝ) ^ 4 / 4 + (x : ℝ) ^ 5 / 5) := by
+    simp only [Finset.sum_range_succ, Finset.sum_range_zero]
+    push_cast; ring
+  rw [hsum] at hb
+  have hden : |(x : ℝ)| ^ (5 + 1) / (1 - |(x : ℝ)|) ≤ 2 * |(x : ℝ)| ^ 6 := by
+    rw [div_le_iff₀ (by linarith), show (5 + 1 : ℕ) = 6 from rfl]
+    have h6 : (0 : ℝ) ≤ |(x : ℝ)| ^ 6 := by positivity
+    nlinarith [mul_nonneg h6 (by linarith : (0 : ℝ) ≤ 1 / 2 - |(x : ℝ)|)]
+  have hb' := abs_le.1 (le_trans hb hden)
+  have habs : ((((if x < 0 then -x else x) : ℚ)) : ℝ) = |(x : ℝ)| := by
+    rw [ite_neg_eq_abs]; push_cast; rfl
+  unfold log1pSmall
+  rw [mem_mk]
+  constructor
+  · apply rdDown_le_real
+    rw [Rat.cast_sub, Rat.cast_mul, Rat.cast_pow, habs]
+    push_cast; linarith [hb'.1]
+  · apply le_rdUp_real
+    rw [Rat.cast_add, Rat.cast_mul, Rat.cast_pow, habs]
+    push_cast; linarith [hb'.2]
 
 theorem log1p_tiny_pos {x δ : ℝ} (h0 : 0 ≤ x) (h1 : x ≤ δ) (_hδ : δ ≤ 1) :
     x * (1 - δ) ≤ Real.log (1 + x) ∧ Real.log (1 + x) ≤ x := by
@@ -229,8 +260,20 @@ theorem trueValue_log1p_sound (n : Bool) (c : Nat) (e : Int) (tn : Bool) (t : Sc
       rw [hXabs] at this
       linarith
   rename_i he
-  -- general branch
   rw [xguard n c e (by omega) (by omega)] at h
+  split at h
+  · -- |X| < 10^-12: Taylor enclosure
+    rename_i h12
+    have hxq : |(Val.fin n c e).toRat| ≤ 1 / 2 := by
+      have h1 := abs_toRat_lt n hc0 e
+      have h2 : (10 : ℚ) ^ (e + (ndigits c : Int)) ≤ (10 : ℚ) ^ (-1 : Int) :=
+        zpow_le_zpow_right₀ (by norm_num) (by omega)
+      have h3 : (10 : ℚ) ^ (-1 : Int) ≤ 1 / 2 := by norm_num
+      exact le_trans (le_trans h1.le h2) h3
+    have hv := log1pSmall_sound _ hxq
+    change Real.log (1 + X n c e) ∈ᵢ _ at hv
+    exact signSplit_sound hv h
+  -- general branch
   split at h
   · exact absurd h (by simp)
   · rename_i l hl
